@@ -192,27 +192,34 @@ def gated_numbering(ctx):
     from props import lin
     import subprocess
     n = 0
+    jobs = []
+    for site in ['wal.append.written', 'wal.sync.flushed', 'sm.put.logged', 'sl.insert.node_next']:
+        for sync in (2, 1):
+            jobs.append((site, False, ['-parkwriter', '-sync', str(sync)]))
     for site in ['sm.flush.snapshot', 'sm.rotate.begin', 'sm.rotate.marked', 'sm.rotate.oldsafe', 'wal.new', 'sm.rotate.created',
                  'sm.rotate.swapped', 'wal.close.pre', 'sm.rotate.closed', 'sm.flush.table.renamed']:
         for imm in (False, True):
-            d = ctx.sub(f'c08-gated-{site}-{int(imm)}')
+            jobs.append((site, imm, []))
+    for site, imm, extra in jobs:
+        if True:
+            d = ctx.sub(f"c08-gated-{site}-{int(imm)}-{'-'.join(extra)}")
             hooks = os.path.join(d, 'hooks.ndjson')
             for f in (hooks,):
                 if os.path.exists(f):
                     os.remove(f)
             import shutil
             shutil.rmtree(os.path.join(d, 'db'), ignore_errors=True)
-            args = [ctx.kvh(), 'lin-gated', '-dir', os.path.join(d, 'db'), '-out', os.path.join(d, 'trace.ndjson'), '-site', site] + (['-imm'] if imm else [])
+            args = [ctx.kvh(), 'lin-gated', '-dir', os.path.join(d, 'db'), '-out', os.path.join(d, 'trace.ndjson'), '-site', site] + (['-imm'] if imm else []) + extra
             p = subprocess.run(args, capture_output=True, text=True, timeout=120, env=dict(os.environ, VERIF_TRACE=hooks))
             if p.returncode == 5 or not os.path.exists(hooks):
                 continue
             n += 1
-            ok, hw, st, outp = tlc_trace(ctx, 'TRACE_StoreProto', 'TRACE_StoreProto.cfg', hooks, timeout=300, tag=f'c08-gated-{site}-{int(imm)}')
+            ok, hw, st, outp = tlc_trace(ctx, 'TRACE_StoreProto', 'TRACE_StoreProto.cfg', hooks, timeout=300, tag=f"c08-gated-{site}-{int(imm)}-{'-'.join(extra)}")
             if not ok:
                 lines = open(hooks).read().splitlines()
                 ev = json.loads(lines[hw - 1]) if hw and hw <= len(lines) else {}
                 ctx.violations.append({'what': f"flush path parked at {site}: the numbering rules are broken at event {ev.get('site')}(a={ev.get('a')}, b={ev.get('b')})",
-                                       'replay': save_replay(ctx, 'store-gated', {'site': site, 'imm': imm})})
+                                       'replay': save_replay(ctx, 'store-gated', {'site': site, 'imm': imm, 'extra': extra})})
     if n < 10:
         raise Infra(f'only {n} gated numbering scenarios ran')
     ctx.traces += n
